@@ -67,7 +67,8 @@ def kv_run(ctx, prop, design_props, what):
     env = {"VERIF_OUT": out, "VERIF_BEH": behfile, "VERIF_KV_T": 200,
            "VERIF_KV_RANDOM": 60 if quick else 1500, "VERIF_KV_RANDOM_LEN": 120 if quick else 200,
            "VERIF_KV_CHURN": 4 if quick else 60, "VERIF_KV_CHURN_LEN": 2500 if quick else 20000,
-           "VERIF_KV_BIG": 0 if quick else 2, "VERIF_KV_LARGE": 2 if quick else 30, "VERIF_KV_MIXED": 2 if quick else 40, "VERIF_KV_MANY": 1 if quick else 8}
+           "VERIF_KV_BIG": 0 if quick else 2, "VERIF_KV_LARGE": 2 if quick else 30, "VERIF_KV_MIXED": 2 if quick else 40, "VERIF_KV_MANY": 1 if quick else 8,
+           "VERIF_KV_KEYLEN": 3 if quick else 60}
     rc, o = vlib.go_test(ctx, "kv", "TestKV", env=env, timeout=1500)
     if crash_or_fail(ctx, rc, o, "running storage programs"):
         return {"evaluations": 0, "distinct_nontrivial": 0, "rule": KV_RULE, "samples": ["crash"]}
@@ -319,11 +320,14 @@ def c08(ctx):
             "(150/300 ms), waiter deadlines 100/250/500 ms, then hold+unlock, lease+unlock, expiry + stale token unlock/lease, double unlock; "
             "forged tokens over RESP; a late comer after every timeout; rounds of 4-8 lockers on a fresh key released at the same instant; expiry races: the holder's Unlock / Lease is held by a gate at the point "
             "between its token check and its effect (unlock.checked / lease.checked) until the lock has timed out and a competitor has taken it, "
-            "then a third client tries - the schedule of TLC's counterexample for LockSpec_old.cfg; non-trivial = two calls on the key overlap in time")
+            "then a third client tries - the schedule of TLC's counterexample for LockSpec_old.cfg; a cluster client whose read timeout (150 ms) is shorter than the deadline of its Lock (600 ms) against a holder that releases before / after that deadline, and a late comer; non-trivial = two calls on the key overlap in time")
     # the two-step Unlock/Lease of the code as found violates mutual exclusion (D25, repaired); the repaired design does not
     vlib.design_expect_violation(ctx, "LockSpec", "LockSpec_old.cfg", "MutualExclusion", "D25 (the design before the repair)", name="LockSpec-old")
+    # a client that stops listening before the deadline it asked for leaves attempts behind that acquire the lock for nobody (D34, repaired)
+    vlib.design_expect_violation(ctx, "LockSpec", "LockSpec_retry.cfg", "LockHasOwner", "D34 (the cluster client before the repair)", name="LockSpec-retry")
     return reg_run(ctx, "TestC08", "c08.ndjson", "c08.summary.json",
-                   {"VERIF_ROUNDS": 2 if quick else 40, "VERIF_PER_BATCH": 20 if quick else 30, "VERIF_RACES": 2 if quick else 25, "VERIF_SIMUL": 30 if quick else 400},
+                   {"VERIF_ROUNDS": 2 if quick else 40, "VERIF_PER_BATCH": 20 if quick else 30, "VERIF_RACES": 2 if quick else 25, "VERIF_SIMUL": 30 if quick else 400,
+                    "VERIF_IMPATIENT": 4 if quick else 40},
                    [("LockSpec", "LockSpec.cfg", {})], rule, "distributed lock", tags_of=ttl_tags)
 
 
@@ -751,9 +755,13 @@ def c03(ctx):
             "owner holding data"
             + "; a third of the Puts carry an expiry of an hour; two joins in a row before any move; for R=2 a crash of the sender or the receiver at one of the five steps of a fragment move (gate at move.exported / move.sent / merge.locked / merge.conflict / merge.done); every fourth scenario with the members' own push and balancer timers; janitor and compaction timers in the small-table clusters")
     design = [("Rebalance", "Rebalance_quick.cfg" if quick else "Rebalance_thorough.cfg", {"timeout": 2400}),
-              ("RoleSwap", "RoleSwap_ordered.cfg", {})]
+              ("RoleSwap", "RoleSwap_ordered.cfg", {}), ("EvictRace", "EvictRace_cond.cfg", {})]
     # two old members swapping roles: the balancer's two independent moves leave both copies on one member for a while (D26)
     vlib.design_expect_violation(ctx, "RoleSwap", "RoleSwap.cfg", "Survives", "D26", name="RoleSwap-as-is")
+    # eviction on a previous owner deletes the backup copy whatever version it holds (D32, open); deleting locally only leaves
+    # expired copies behind (the repair that was withdrawn); a delete that names the expired version does neither
+    vlib.design_expect_violation(ctx, "EvictRace", "EvictRace.cfg", "BackupKept", "D32", name="EvictRace-as-is")
+    vlib.design_expect_violation(ctx, "EvictRace", "EvictRace_local.cfg", "NoLeftover", "D32 (withdrawn repair)", name="EvictRace-local")
     return ledger_run(ctx, "TestC03", "c03.ndjson", "c03.summary.json", {"VERIF_SCENARIOS": 12 if quick else 300}, design, rule, "rebalancing")
 
 
